@@ -45,18 +45,18 @@ EffHi(cfg, p) == IF Has(cfg, p, "max") /\ ConvOK(PInfo[p].ty, Get(cfg, p, "max")
 (* a configured <p>_limits pair narrows what the start-up write of p accepts *)
 HasPair(cfg, p) == \E e \in cfg : e.par = p \o "_limits" /\ e.prop = "value" /\ e.v.ty = "pair"
 PairOf(cfg, p) == (CHOOSE e \in cfg : e.par = p \o "_limits" /\ e.prop = "value").v
-Max(x, y) == IF x > y THEN x ELSE y
-Min(x, y) == IF x < y THEN x ELSE y
-ValLo(cfg, p) == IF HasPair(cfg, p) THEN Max(EffLo(cfg, p), PairOf(cfg, p).n) ELSE EffLo(cfg, p)
-ValHi(cfg, p) == IF HasPair(cfg, p) THEN Min(EffHi(cfg, p), PairOf(cfg, p).m) ELSE EffHi(cfg, p)
+MaxOf(x, y) == IF x > y THEN x ELSE y
+MinOf(x, y) == IF x < y THEN x ELSE y
+ValLo(cfg, p) == IF HasPair(cfg, p) THEN MaxOf(EffLo(cfg, p), PairOf(cfg, p).n) ELSE EffLo(cfg, p)
+ValHi(cfg, p) == IF HasPair(cfg, p) THEN MinOf(EffHi(cfg, p), PairOf(cfg, p).m) ELSE EffHi(cfg, p)
 
-Range(lo, hi, n) == IF n < lo \/ n > hi THEN "outside" ELSE IF n = lo \/ n = hi THEN "atlimit" ELSE "inside"
+RangeClass(lo, hi, n) == IF n < lo \/ n > hi THEN "outside" ELSE IF n = lo \/ n = hi THEN "atlimit" ELSE "inside"
 
 EntryClass(cfg, e) ==
   IF e.par \in Params THEN
      LET info == PInfo[e.par] IN
      CASE e.prop = "value" -> IF ~ConvOK(info.ty, e.v) THEN "wrongtype"
-                              ELSE Range(ValLo(cfg, e.par), ValHi(cfg, e.par), e.v.n)
+                              ELSE RangeClass(ValLo(cfg, e.par), ValHi(cfg, e.par), e.v.n)
        [] e.prop \in {"min", "max"} -> IF ~ConvOK(info.ty, e.v) THEN "wrongtype"
                                        ELSE IF EffLo(cfg, e.par) > EffHi(cfg, e.par) THEN "inverted" ELSE "inside"
        [] e.prop = "unit" /\ "unit" \in DtProps(info.ty) -> IF e.v.ty = "str" THEN "inside" ELSE "wrongtype"
@@ -66,7 +66,7 @@ EntryClass(cfg, e) ==
   ELSE IF e.par \in ModProps THEN
      IF e.prop # "value" THEN "unknownprop"
      ELSE IF ~ConvOK(MInfo[e.par].ty, e.v) THEN "wrongtype"
-     ELSE Range(MInfo[e.par].lo, MInfo[e.par].hi, e.v.n)
+     ELSE RangeClass(MInfo[e.par].lo, MInfo[e.par].hi, e.v.n)
   ELSE IF e.par \in Commands THEN
      IF e.prop = "visibility" THEN (IF e.v.ty = "int" /\ e.v.n \in {2, 4, 6} THEN "inside" ELSE "wrongtype")
      ELSE "unknownprop"
